@@ -848,6 +848,21 @@ def _allsat_job(arg):
         ok, errs = lg.real_parse_tokens(sent[:-1])
         if not ok and len(out["bad"]) < 3:
             out["bad"].append((sent, cfg.concrete_derives(NA, start, sent)))
+        # the other direction on the neighbours of the sentence: a single-token substitution inside the window that the
+        # grammar rejects must be rejected by the generated code too (a deterministic 1/R slice of all substitutions)
+        R = 64 if tier == "quick" else 4
+        for pos in range(len(pre), len(pre) + k):
+            for a in alphabet:
+                if a == sent[pos] or (out["count"] * 31 + pos * 7 + a) % R:
+                    continue
+                mt = list(sent)
+                mt[pos] = a
+                if cfg.concrete_derives(NG, start, mt):
+                    continue
+                out["mutants"] = out.get("mutants", 0) + 1
+                ok2, _ = lg.real_parse_tokens(mt[:-1])
+                if ok2 and len(out["bad"]) < 3:
+                    out["bad"].append((mt, "accepted-but-ungrammatical"))
     out["dt"] = time.time() - t0
     out["complete"] = r == "unsat"
     return out
@@ -863,6 +878,7 @@ def allsat_decisions(rep, lg, tier):
     jobs = [(ri, k, tier) for ri, (_, _, _, (kmin, kmax), _) in enumerate(regions) for k in range(kmin, kmax + 1)]
     jobs.sort(key=lambda j: -j[1])
     total = 0
+    nmut = 0
     bad = []
     for res in common.pmap(_allsat_job, jobs):
         for q in ("sat", "unsat", "unknown"):
@@ -876,9 +892,15 @@ def allsat_decisions(rep, lg, tier):
         rep.obligation("O2v %s: all %d grammar sentences with a free window of %d tokens over %d token classes are accepted by the generated parser code"
                        % (res["label"], res["count"], res["k"], res["classes"]), verdict)
         bad += [(res["label"], s_, e_) for (s_, e_) in res["bad"]]
-    rep.validated += total
+        nmut += res.get("mutants", 0)
+    rep.validated += total + nmut
     rep.extra["allsat_sentences_parsed_by_generated_code"] = total
+    rep.extra["allsat_ungrammatical_neighbours_parsed_by_generated_code"] = nmut
     for (label, sent, enc_a) in bad[:3]:
+        if enc_a == "accepted-but-ungrammatical":
+            rep.violation("O2v:accepts:%s" % label, "the generated parser code accepts a token sequence that blackbird.g4 rejects (%s): %r" % (label, _symnames(lg, sent)),
+                          _replay_src("parse", {"tag": "python", "root": "start", "w": sent}), "o2v_%d" % len(rep.violations))
+            continue
         rep.violation("O2v:%s" % label, "the generated parser code rejects a sentence of blackbird.g4 (%s; the shipped automaton %s it): %r"
                       % (label, "accepts" if enc_a else "also rejects", _symnames(lg, sent)),
                       _replay_src("parse", {"tag": "python", "root": "start", "w": sent}), "o2v_%d" % len(rep.violations))
